@@ -187,11 +187,37 @@ def case(spec):
             leak = [t for t in comp_txids if t in txt][:2]
             if leak:
                 v.append(viol(unexplained, "competitor transactions reach the output %s: %s" % (what, leak)))
+    ranged = 0
+    if sig not in KNOWN_SHAPES and spec.get("ranges") and not v:
+        # the same index read for a RANGE: which record wins a height must not depend on --start/--end
+        rrng = random.Random("C04ranges|%s|%s" % (spec["seed"], spec["n"]))
+        pairs = [(None, e) for e in range(1, tip + 1)] + [(rrng.randint(1, e - 1), e) for e in range(2, tip + 2)] + [(s_, None) for s_ in (1, tip)]
+        if spec["ranges"] != "all":
+            pairs = rrng.sample(pairs, min(len(pairs), spec["ranges"]))
+        for s_, e_ in pairs:
+            dump = harness.fresh(os.path.join(work, "o"))
+            log = os.path.join(work, "ev.jsonl")
+            p = harness.run_cb(binary, d, coin, "csvdump", dump, s_, e_, verify=bool(s_) and (e_ or 0) % 2 == 0, log=log, timeout=300)
+            runs += 1
+            ranged += 1
+            what = "[csvdump --start %s --end %s; competitor=%s extras=%s coin=%s]" % (s_, e_, spec["cls"], spec.get("extras"), coin)
+            if p.rc != 0:
+                v.append(viol(sig + ":ranged", "run failed (exit %s) %s: %s" % (p.rc, what, (p.err or p.out)[-300:].replace("\n", " | "))))
+                break
+            got = [e["hash"] for e in harness.read_events(log) if e["ev"] == "deliver"]
+            want = [b.hash_hex for _, b in model.in_range(chain, s_ or 0, e_)]
+            if got != want:
+                v.append(viol(sig + ":ranged", "delivered sequence is not the active chain's slice %s: got %s want %s" % (what, [g[:12] for g in got], [w[:12] for w in want])))
+                break
+            bad = oracles.check_csvdump(p, dump, chain, coin, s_ or 0, e_)
+            if bad:
+                v.append(viol(sig + ":ranged", "%s: %s %s" % (bad[0][0], bad[0][1], what)))
+                break
     shutil.rmtree(work, ignore_errors=True)
     # one violation per case is enough for the report
     v = v[:2]
     return {"evaluations": runs, "violations": v, "shapes": ["%s|len%d|%s|%s" % (sig, spec.get("length", 1), "+".join(sorted(set(spec.get("extras", [])))), "tip" if spec.get("at_tip") else "-")],
-            "counters": {"runs": runs, "cases:" + ("benign" if spec["cls"] == "none" else spec["cls"]): 1, "competitor_records": len(competitors), "header_only_records": len(header_only)},
+            "counters": {"runs": runs, "ranged_runs": ranged, "cases:" + ("benign" if spec["cls"] == "none" else spec["cls"]): 1, "competitor_records": len(competitors), "header_only_records": len(header_only)},
             "sample": {"coin": coin, "competitor": spec["cls"], "pos": spec["pos"], "order": spec["order"], "length": spec.get("length", 1), "extras": spec.get("extras")}}
 
 
@@ -217,7 +243,7 @@ def plan(chk):
         add(cls="none", pos="-", order="-", extras=extras_pool * 2)
         add(cls="none", pos="-", order="-", extras=[])
         for _ in range(4):
-            add(cls="mixed_harmless", pos="-", order="-")
+            add(cls="mixed_harmless", pos="-", order="-", ranges="all" if chk.thorough else 12)
         for cls in ("stale_with_data", "failed_with_data", "failed_child_with_data", "reorged_out"):
             for order in ("before", "after"):
                 for length in (1, 2, 3):
